@@ -6,7 +6,7 @@ from . import common as K
 
 PROP = "C05"
 RULE = ("cases = (symbol source, ~40 lookups): every non-emptied ELF / Mach-O / PE fixture (thin files; the debug-link companions are served from the same directory), ELF objects generated with gcc/ld from assembly (executables, and shared objects stripped down to .dynsym) with "
-        "arbitrary symbol layouts (sized, unsized, overlapping, NOTYPE-with-size, several text sections, non-zero base, with/without build id), generated Breakpad .sym files and generated jitdump files. "
+        "arbitrary symbol layouts (sized, unsized, overlapping, NOTYPE-with-size, functions with FDEs in .eh_frame with and without a symbol, several text sections, non-zero base, with/without build id), generated Breakpad .sym files and generated jitdump files. "
         "Lookups at entry addresses, address+size-1, address+size, in gaps, below the first and above the last symbol, random 32-bit values - in all three address forms where the source supports them "
         "(relative, stated virtual address = base + relative, file offset via the segment ranges); each batch is repeated from 8 threads in different orders on one shared symbol map. "
         "non-trivial = a lookup lands in dead space after an end marker, or a file-offset lookup succeeds")
@@ -39,14 +39,24 @@ def _gen_elf(rng, d, k):
             asm.append(".type %s, @function" % name)
         asm.append("%s:" % name)
         n = rng.range(1, 40)
+        cfi = rng.chance(1, 3)        # an FDE in .eh_frame: a synthesized function start and an end address besides (or instead of) the symbol
+        if cfi:
+            asm.append("  .cfi_startproc")
         asm.append("  .fill %d, 1, 0x90" % n)
+        if cfi and kind != "overlap":
+            asm.append("  .cfi_endproc")
         if kind == "overlap":
             asm.append(".globl %s_inner" % name)
             asm.append(".type %s_inner, @function" % name)
             asm.append("%s_inner:" % name)
             asm.append("  .fill %d, 1, 0x90" % rng.range(1, 10))
+        if cfi and kind == "overlap":
+            asm.append("  .cfi_endproc")
         if kind in ("sized", "overlap", "notype"):
             asm.append(".size %s, .-%s" % (name, name))
+        if rng.chance(1, 6):
+            # a function without any symbol, known through its FDE only
+            asm += ["  .cfi_startproc", "  .fill %d, 1, 0x90" % rng.range(1, 20), "  .cfi_endproc"]
         if rng.chance(1, 4):
             asm.append("  .fill %d, 1, 0xcc" % rng.range(1, 30))      # a gap that belongs to no sized symbol
     if rng.chance(1, 2):
